@@ -8,6 +8,7 @@ COMMON_TB = [
 FLOAT_TB = "IEEE-754 rounding: theorems are over exact rationals; the f64 instance of the same definitions is compared bit-for-bit with the Rust results on the generated cases"
 CONSTS = {"script": "gen_consts.py"}
 UNITS = {"script": "gen_units.py"}
+DISPLAY_CONSTS = {"script": "gen_display_consts.py"}
 UNITS_ALT = {"script": "gen_units.py", "args": ["lean/CookModel/Gen/UnitsAlt.lean", "corpus/C09/alt_units.toml", "GenAlt"]}
 
 UNITS_LAY = {"script": "gen_units.py", "args": ["lean/CookModel/Gen/UnitsLay.lean", "@repo", "GenLay", "corpus/C12/frac_layer.toml"]}
@@ -29,9 +30,11 @@ PROPS = {
                         "`AisleConf` equality is taken on freshly parsed configurations (the private `len` cache cell is 0); `ingredients_info` is the lookup"],
     },
     "C12": {
-        "gen": [CONSTS, UNITS, UNITS_ALT, UNITS_LAY],
+        "gen": [CONSTS, UNITS, UNITS_ALT, UNITS_LAY, DISPLAY_CONSTS],
         "trusted_base": COMMON_TB + [FLOAT_TB,
             "translators/gen_consts.py (scrapes DENOMS, FIX_RATIO, the 1e-10 tolerance from src/quantity.rs)",
+            "translators/gen_display_consts.py (scrapes the 1000.0 of round_float and the 0.001 suffix threshold of Display for Number)",
+            "modelled, not verified: std `Display for f64` (flt2dec shortest digits); the model's exact shortest-round-trip printer (Num/Display.lean `f64Text`) is compared with `format!` on every run; the theorems about printed decimals are over exact rationals (`ratText`)",
             "modelled, not verified: std f64 trunc/round/fract/as-casts (Lean Float ops are assumed to be the same IEEE operations)"],
         "assumptions": ["theorems hold for every structurally well-formed lookup table; that the table built with f64 arithmetic equals the one built exactly is checked at run time by the driver, not proved",
                         "accuracy in [0,1] and max_den <= 64 (the documented preconditions; callers are checked under C03/C16)"],
